@@ -333,6 +333,8 @@ def _dump_single_output(
     output: Any,
     store: dict[str, StoreType],
 ) -> tuple[Any, ...]:
+    if isinstance(output, _LoadedOutputs):  # already picked and stored by a previous run
+        return output.outputs
     if isinstance(func.output_name, tuple):
         new_output = []  # output in same order as func.output_name
         for output_name in func.output_name:
@@ -739,6 +741,12 @@ class _StoredValue(NamedTuple):
     exists: bool
 
 
+class _LoadedOutputs(NamedTuple):
+    """The outputs of a function without `MapSpec` inputs as stored by a previous run, one per output name."""
+
+    outputs: tuple[Any, ...]
+
+
 def _load_from_store(
     output_name: OUTPUT_TYPE,
     store: dict[str, StoreType],
@@ -783,7 +791,8 @@ def _execute_single(
     # Load the output if it exists
     output, exists = _load_from_store(func.output_name, store, return_output=True)
     if exists:
-        return output
+        # Not the return value of `func` but its picked outputs: must not go through `output_picker` again
+        return _LoadedOutputs(tuple(output) if isinstance(func.output_name, tuple) else (output,))
 
     # Otherwise, run the function
     _load_arrays(kwargs)
